@@ -1,4 +1,5 @@
 import FuModel.Proofs.WalkRef
+import FuModel.Proofs.WalkOnce
 
 /-!
 # C02 — traversal: every in-range entry exactly once under -P, -H, -L
@@ -39,6 +40,34 @@ theorem C02_empty_range (c : RefCfg) (ev : Visit α → σ → EvalOut × σ) (h
     (root : Node α) (A : Acc σ) :
     (refRoot c ev root A).1 = false ∧ (refRoot c ev root A).2.st = A.st :=
   refNode_empty_range c ev h [] 0 root A
+
+/-- **Exactly once.**  With the evaluator that merely records the entry it is called on, the real
+    walk (walkdir's iterator under `process_dir`'s loop and depth guard) records precisely the list
+    `pathsN` of in-range entries reachable under the follow mode, and — the names inside every
+    directory being distinct, as in a file system — that list has no repetition: every in-range entry
+    is evaluated once, none twice, none outside the range.  Holds for every tree, every depth range
+    and the three follow modes; in post-order except for the one configuration of the known finding. -/
+theorem C02_exactly_once (c : RefCfg) (root : Node α) (hd : distinctN root)
+    (hcfg : c.depthFirst = false ∨ ¬ HRootLink c root) :
+    (processRoot c logEv root []).st = pathsN c [] 0 root ∧ (pathsN c [] 0 root).Nodup := by
+  refine ⟨?_, pathsN_nodup c [] 0 root hd⟩
+  have hlog := refNode_log c [] 0 root ⟨[], 0, 0⟩
+  have href : (refRoot c logEv root ⟨[], 0, 0⟩).2.st = pathsN c [] 0 root := by
+    simpa [refRoot] using hlog.2
+  cases hdf : c.depthFirst
+  · have hp : PruneOk c (logEv (α := α)) := by
+      intro v s h; simp [logEv] at h
+    rw [C02_refines_pre c logEv hdf hp root []]
+    simpa [resOf] using href
+  · rcases hcfg with h | h
+    · rw [hdf] at h; cases h
+    · rw [C02_refines_post c logEv hdf root h []]
+      simpa [resOf] using href
+
+/-- every recorded path lies below the starting point it was reached from: it extends the path
+    of the node whose subtree produced it -/
+theorem C02_paths_below (c : RefCfg) (rp : List Name) (d : Nat) (n : Node α) :
+    ∀ p ∈ pathsN c rp d n, ∃ e, p = e ++ rp := pathsN_suffix c rp d n
 
 /-- Non-vacuity: a two-level tree, -maxdepth 1 (the reference on a concrete run; `loop` itself is
     defined by well-founded recursion and does not reduce in the kernel, the refinement theorems
